@@ -256,8 +256,12 @@ static void w_apply(mc_op_t o)
     /* the events of this one operation -- clear(a), free(memory a), free(bookkeeping a) -- must be exactly the predicted ones, in order */
     {
         char gs[200] = "", es[200] = ""; static const char *kn[] = { "?", "clear", "free-mem", "free-book" };
-        for (k = 0; k < ngot && k < 12; k++) sprintf(gs + strlen(gs), "%s%s(%d)", k ? " " : "", kn[got[k].kind], got[k].a);
-        for (k = 0; k < nexp && k < 12; k++) sprintf(es + strlen(es), "%s%s(%d)", k ? " " : "", kn[exp_[k].kind], exp_[k].a);
+        /* the clear callback and the release of the MANAGED memory are pinned per operation (which allocation, in which order).  The library's own
+         * bookkeeping blocks are not matched event by event: when such a block is released within an operation, or whether it is handed on to the next
+         * allocation of the same pointer instead, cannot be observed through the API; that none is released early, kept too long or leaked is decided by the
+         * exact count of live blocks in every state (audit), by the allocation layer (double / foreign free) and by ASan (use after free). */
+        for (k = 0; k < ngot && k < 12; k++) if (got[k].kind != E_FREE_BOOK) sprintf(gs + strlen(gs), "%s%s(%d)", gs[0] ? " " : "", kn[got[k].kind], got[k].a);
+        for (k = 0; k < nexp && k < 12; k++) if (exp_[k].kind != E_FREE_BOOK) sprintf(es + strlen(es), "%s%s(%d)", es[0] ? " " : "", kn[exp_[k].kind], exp_[k].a);
         if (MODE) {
             MC_CHECK(PC05, !strcmp(gs, es), "destruction events of this operation were [%s], expected [%s] (negative ids: -2 wrong address, -3 wrong private pointer, -4 already freed)", gs, es);
         } else {
